@@ -44,11 +44,11 @@ LEVEL_NOTE = ("trusted: numpy/math, the textbook relations transcribed in xpmc/x
               "assumed: points are presented in ascending polar angle (the order the package's own examples use), fields depend on the polar angle only "
               "(checked at two radii), defects confined to states between lattice values are not seen; pairs on which the solver raises are counted, "
               "classified with an independent reference solution, and not judged here (C20)")
-BOUND = {"quick": "K=2 deviations from the default pair (279 pairs), 10-parameter alphabet",
+BOUND = {"quick": "K=3 deviations from the default pair (1839 pairs), 10-parameter alphabet; radii 1, 0.37, 1e-7",
          "thorough": "K=4 deviations from the default pair (7992 pairs), same alphabet"}
 RULE = ("tasks = all (bottom_state, top_state) pairs with <= K deviating entries over the alphabet p{1,0.25,4} rho{1,0.5,2} M{2.4,7,1.5,4} theta{0,+-5,+-12 deg} "
         "gamma{1.4,5/3} per side (default first); per pair: one 161-point scan of the arc phi in [-1.45,1.45], <= 10 refinement calls (14-way multi-section of every "
-        "edge), one evaluation call at radius 1 and one at radius 0.37 with 41 uniform arc points + 8 points in every fan + 2 points at every edge; an "
+        "edge), one evaluation call at each of the radii 1, 0.37 and 1e-7 with 41 uniform arc points + 8 points in every fan + 2 points at every edge; an "
         "evaluation is one public IGEOS_Solver call; a case (pair, wave or point, clause) is non-trivial when the wave has non-zero strength "
         "(|p2/p1 - 1| > 1e-9) resp. the point lies in a region other than the two inflow regions; distinct by (pair, located item, clause)")
 ASSUMPTIONS = [
@@ -68,14 +68,14 @@ ALPHABET = {
     "pB": [1.0, 0.25, 4.0], "rB": [1.0, 0.5, 2.0], "MB": [2.4, 7.0, 1.5, 4.0], "thB": [0.0, 5.0, -5.0, 12.0, -12.0], "gB": [1.4, G53],
     "pT": [0.25, 1.0, 4.0], "rT": [0.5, 1.0, 2.0], "MT": [7.0, 2.4, 1.5, 4.0], "thT": [0.0, 5.0, -5.0, 12.0, -12.0], "gT": [1.4, G53],
 }
-K = {"quick": 2, "thorough": 4}
+K = {"quick": 3, "thorough": 4}
 
 PHI_MAX = 1.45
 N_SCAN = 161
 N_ARC = 41
 N_FAN = 8
 N_INNER = 33           # points used to tell a fan from hidden narrow plateaus inside a zone of change
-RADII = (1.0, 0.37)
+RADII = (1.0, 0.37, 1.0e-7)      # the last: next to the apex, where an absolute length literal in the ray angle shows (S3-C19-3)
 MSEC = 14              # interior points per multi-section round
 EDGE_TOL = 2.0e-11     # rad
 EDGE_EPS = 1.0e-7      # evaluation points this far on either side of a located edge
